@@ -31,7 +31,7 @@ macro "list_ring" : tactic =>
 /-! ## degree 0 -/
 theorem bezierPoint_0 (p0 t : K) :
     Gen.C19.bezier_point_0 p0 t = bernstein [p0] t := by
-  simp [Gen.C19.bezier_point_0, bernstein, bernsteinAux, polyEval, List.foldl, Nat.choose] <;> ring
+  simp [Gen.C19.bezier_point_0, bernstein, bernsteinAux, polyEval, Nat.choose] <;> ring
 
 theorem bezierPoint_0_zero (p0 : K) : Gen.C19.bezier_point_0 p0 0 = p0 := by
   simp [Gen.C19.bezier_point_0]
@@ -41,7 +41,7 @@ theorem bezierPoint_0_one (p0 : K) : Gen.C19.bezier_point_0 p0 1 = p0 := by
 
 theorem b2pNp_0 (p0 t : K) :
     polyEval [Gen.C19.b2p_0_np_0 p0] t = bernstein [p0] t := by
-  simp [Gen.C19.b2p_0_np_0, bernstein, bernsteinAux, polyEval, List.foldl, Nat.choose] <;> ring
+  simp [Gen.C19.b2p_0_np_0, bernstein, bernsteinAux, polyEval, Nat.choose] <;> ring
 
 theorem b2pStd_0 (p0 : K) :
     [Gen.C19.b2p_0_std_0 p0] = [Gen.C19.b2p_0_np_0 p0] := by
@@ -50,7 +50,7 @@ theorem b2pStd_0 (p0 : K) :
 /-! ## degree 1 -/
 theorem bezierPoint_1 (p0 p1 t : K) :
     Gen.C19.bezier_point_1 p0 p1 t = bernstein [p0, p1] t := by
-  simp [Gen.C19.bezier_point_1, bernstein, bernsteinAux, polyEval, List.foldl, Nat.choose] <;> ring
+  simp [Gen.C19.bezier_point_1, bernstein, bernsteinAux, polyEval, Nat.choose] <;> ring
 
 theorem bezierPoint_1_zero (p0 p1 : K) : Gen.C19.bezier_point_1 p0 p1 0 = p0 := by
   simp [Gen.C19.bezier_point_1]
@@ -60,7 +60,7 @@ theorem bezierPoint_1_one (p0 p1 : K) : Gen.C19.bezier_point_1 p0 p1 1 = p1 := b
 
 theorem b2pNp_1 (p0 p1 t : K) :
     polyEval [Gen.C19.b2p_1_np_0 p0 p1, Gen.C19.b2p_1_np_1 p0 p1] t = bernstein [p0, p1] t := by
-  simp [Gen.C19.b2p_1_np_0, Gen.C19.b2p_1_np_1, bernstein, bernsteinAux, polyEval, List.foldl, Nat.choose] <;> ring
+  simp [Gen.C19.b2p_1_np_0, Gen.C19.b2p_1_np_1, bernstein, bernsteinAux, polyEval, Nat.choose] <;> ring
 
 theorem b2pStd_1 (p0 p1 : K) :
     [Gen.C19.b2p_1_std_0 p0 p1, Gen.C19.b2p_1_std_1 p0 p1] = [Gen.C19.b2p_1_np_1 p0 p1, Gen.C19.b2p_1_np_0 p0 p1] := by
@@ -68,11 +68,11 @@ theorem b2pStd_1 (p0 p1 : K) :
 
 theorem splitL_1 (p0 p1 t u : K) :
     bernstein [Gen.C19.split_1_L_0 p0 p1 t, Gen.C19.split_1_L_1 p0 p1 t] u = bernstein [p0, p1] (u * t) := by
-  simp [Gen.C19.split_1_L_0, Gen.C19.split_1_L_1, bernstein, bernsteinAux, polyEval, List.foldl, Nat.choose] <;> ring
+  simp [Gen.C19.split_1_L_0, Gen.C19.split_1_L_1, bernstein, bernsteinAux, polyEval, Nat.choose] <;> ring
 
 theorem splitR_1 (p0 p1 t u : K) :
     bernstein [Gen.C19.split_1_R_0 p0 p1 t, Gen.C19.split_1_R_1 p0 p1 t] u = bernstein [p0, p1] (t + u * (1 - t)) := by
-  simp [Gen.C19.split_1_R_0, Gen.C19.split_1_R_1, bernstein, bernsteinAux, polyEval, List.foldl, Nat.choose] <;> ring
+  simp [Gen.C19.split_1_R_0, Gen.C19.split_1_R_1, bernstein, bernsteinAux, polyEval, Nat.choose] <;> ring
 
 theorem halveIsSplit_1 (p0 p1 : K) :
     [Gen.C19.halve_1_L_0 p0 p1, Gen.C19.halve_1_L_1 p0 p1] = [Gen.C19.split_1_L_0 p0 p1 (1/2), Gen.C19.split_1_L_1 p0 p1 (1/2)] ∧
@@ -81,7 +81,7 @@ theorem halveIsSplit_1 (p0 p1 : K) :
 
 theorem p2bCurve_1 (c0 c1 t : K) :
     bernstein [Gen.C19.p2b_1_0 c0 c1, Gen.C19.p2b_1_1 c0 c1] t = polyEval [c0, c1] t := by
-  simp [Gen.C19.p2b_1_0, Gen.C19.p2b_1_1, bernstein, bernsteinAux, polyEval, List.foldl, Nat.choose] <;> ring
+  simp [Gen.C19.p2b_1_0, Gen.C19.p2b_1_1, bernstein, bernsteinAux, polyEval, Nat.choose] <;> ring
 
 theorem p2bB2p_1 (p0 p1 : K) :
     [Gen.C19.p2b_1_0 (Gen.C19.b2p_1_np_0 p0 p1) (Gen.C19.b2p_1_np_1 p0 p1), Gen.C19.p2b_1_1 (Gen.C19.b2p_1_np_0 p0 p1) (Gen.C19.b2p_1_np_1 p0 p1)] = [p0, p1] := by
@@ -94,7 +94,7 @@ theorem b2pP2b_1 (c0 c1 : K) :
 /-! ## degree 2 -/
 theorem bezierPoint_2 (p0 p1 p2 t : K) :
     Gen.C19.bezier_point_2 p0 p1 p2 t = bernstein [p0, p1, p2] t := by
-  simp [Gen.C19.bezier_point_2, bernstein, bernsteinAux, polyEval, List.foldl, Nat.choose] <;> ring
+  simp [Gen.C19.bezier_point_2, bernstein, bernsteinAux, polyEval, Nat.choose] <;> ring
 
 theorem bezierPoint_2_zero (p0 p1 p2 : K) : Gen.C19.bezier_point_2 p0 p1 p2 0 = p0 := by
   simp [Gen.C19.bezier_point_2]
@@ -104,7 +104,7 @@ theorem bezierPoint_2_one (p0 p1 p2 : K) : Gen.C19.bezier_point_2 p0 p1 p2 1 = p
 
 theorem b2pNp_2 (p0 p1 p2 t : K) :
     polyEval [Gen.C19.b2p_2_np_0 p0 p1 p2, Gen.C19.b2p_2_np_1 p0 p1 p2, Gen.C19.b2p_2_np_2 p0 p1 p2] t = bernstein [p0, p1, p2] t := by
-  simp [Gen.C19.b2p_2_np_0, Gen.C19.b2p_2_np_1, Gen.C19.b2p_2_np_2, bernstein, bernsteinAux, polyEval, List.foldl, Nat.choose] <;> ring
+  simp [Gen.C19.b2p_2_np_0, Gen.C19.b2p_2_np_1, Gen.C19.b2p_2_np_2, bernstein, bernsteinAux, polyEval, Nat.choose] <;> ring
 
 theorem b2pStd_2 (p0 p1 p2 : K) :
     [Gen.C19.b2p_2_std_0 p0 p1 p2, Gen.C19.b2p_2_std_1 p0 p1 p2, Gen.C19.b2p_2_std_2 p0 p1 p2] = [Gen.C19.b2p_2_np_2 p0 p1 p2, Gen.C19.b2p_2_np_1 p0 p1 p2, Gen.C19.b2p_2_np_0 p0 p1 p2] := by
@@ -112,11 +112,11 @@ theorem b2pStd_2 (p0 p1 p2 : K) :
 
 theorem splitL_2 (p0 p1 p2 t u : K) :
     bernstein [Gen.C19.split_2_L_0 p0 p1 p2 t, Gen.C19.split_2_L_1 p0 p1 p2 t, Gen.C19.split_2_L_2 p0 p1 p2 t] u = bernstein [p0, p1, p2] (u * t) := by
-  simp [Gen.C19.split_2_L_0, Gen.C19.split_2_L_1, Gen.C19.split_2_L_2, bernstein, bernsteinAux, polyEval, List.foldl, Nat.choose] <;> ring
+  simp [Gen.C19.split_2_L_0, Gen.C19.split_2_L_1, Gen.C19.split_2_L_2, bernstein, bernsteinAux, polyEval, Nat.choose] <;> ring
 
 theorem splitR_2 (p0 p1 p2 t u : K) :
     bernstein [Gen.C19.split_2_R_0 p0 p1 p2 t, Gen.C19.split_2_R_1 p0 p1 p2 t, Gen.C19.split_2_R_2 p0 p1 p2 t] u = bernstein [p0, p1, p2] (t + u * (1 - t)) := by
-  simp [Gen.C19.split_2_R_0, Gen.C19.split_2_R_1, Gen.C19.split_2_R_2, bernstein, bernsteinAux, polyEval, List.foldl, Nat.choose] <;> ring
+  simp [Gen.C19.split_2_R_0, Gen.C19.split_2_R_1, Gen.C19.split_2_R_2, bernstein, bernsteinAux, polyEval, Nat.choose] <;> ring
 
 theorem halveIsSplit_2 (p0 p1 p2 : K) :
     [Gen.C19.halve_2_L_0 p0 p1 p2, Gen.C19.halve_2_L_1 p0 p1 p2, Gen.C19.halve_2_L_2 p0 p1 p2] = [Gen.C19.split_2_L_0 p0 p1 p2 (1/2), Gen.C19.split_2_L_1 p0 p1 p2 (1/2), Gen.C19.split_2_L_2 p0 p1 p2 (1/2)] ∧
@@ -125,7 +125,7 @@ theorem halveIsSplit_2 (p0 p1 p2 : K) :
 
 theorem p2bCurve_2 (c0 c1 c2 t : K) :
     bernstein [Gen.C19.p2b_2_0 c0 c1 c2, Gen.C19.p2b_2_1 c0 c1 c2, Gen.C19.p2b_2_2 c0 c1 c2] t = polyEval [c0, c1, c2] t := by
-  simp [Gen.C19.p2b_2_0, Gen.C19.p2b_2_1, Gen.C19.p2b_2_2, bernstein, bernsteinAux, polyEval, List.foldl, Nat.choose] <;> ring
+  simp [Gen.C19.p2b_2_0, Gen.C19.p2b_2_1, Gen.C19.p2b_2_2, bernstein, bernsteinAux, polyEval, Nat.choose] <;> ring
 
 theorem p2bB2p_2 (p0 p1 p2 : K) :
     [Gen.C19.p2b_2_0 (Gen.C19.b2p_2_np_0 p0 p1 p2) (Gen.C19.b2p_2_np_1 p0 p1 p2) (Gen.C19.b2p_2_np_2 p0 p1 p2), Gen.C19.p2b_2_1 (Gen.C19.b2p_2_np_0 p0 p1 p2) (Gen.C19.b2p_2_np_1 p0 p1 p2) (Gen.C19.b2p_2_np_2 p0 p1 p2), Gen.C19.p2b_2_2 (Gen.C19.b2p_2_np_0 p0 p1 p2) (Gen.C19.b2p_2_np_1 p0 p1 p2) (Gen.C19.b2p_2_np_2 p0 p1 p2)] = [p0, p1, p2] := by
@@ -138,7 +138,7 @@ theorem b2pP2b_2 (c0 c1 c2 : K) :
 /-! ## degree 3 -/
 theorem bezierPoint_3 (p0 p1 p2 p3 t : K) :
     Gen.C19.bezier_point_3 p0 p1 p2 p3 t = bernstein [p0, p1, p2, p3] t := by
-  simp [Gen.C19.bezier_point_3, bernstein, bernsteinAux, polyEval, List.foldl, Nat.choose] <;> ring
+  simp [Gen.C19.bezier_point_3, bernstein, bernsteinAux, polyEval, Nat.choose] <;> ring
 
 theorem bezierPoint_3_zero (p0 p1 p2 p3 : K) : Gen.C19.bezier_point_3 p0 p1 p2 p3 0 = p0 := by
   simp [Gen.C19.bezier_point_3]
@@ -148,7 +148,7 @@ theorem bezierPoint_3_one (p0 p1 p2 p3 : K) : Gen.C19.bezier_point_3 p0 p1 p2 p3
 
 theorem b2pNp_3 (p0 p1 p2 p3 t : K) :
     polyEval [Gen.C19.b2p_3_np_0 p0 p1 p2 p3, Gen.C19.b2p_3_np_1 p0 p1 p2 p3, Gen.C19.b2p_3_np_2 p0 p1 p2 p3, Gen.C19.b2p_3_np_3 p0 p1 p2 p3] t = bernstein [p0, p1, p2, p3] t := by
-  simp [Gen.C19.b2p_3_np_0, Gen.C19.b2p_3_np_1, Gen.C19.b2p_3_np_2, Gen.C19.b2p_3_np_3, bernstein, bernsteinAux, polyEval, List.foldl, Nat.choose] <;> ring
+  simp [Gen.C19.b2p_3_np_0, Gen.C19.b2p_3_np_1, Gen.C19.b2p_3_np_2, Gen.C19.b2p_3_np_3, bernstein, bernsteinAux, polyEval, Nat.choose] <;> ring
 
 theorem b2pStd_3 (p0 p1 p2 p3 : K) :
     [Gen.C19.b2p_3_std_0 p0 p1 p2 p3, Gen.C19.b2p_3_std_1 p0 p1 p2 p3, Gen.C19.b2p_3_std_2 p0 p1 p2 p3, Gen.C19.b2p_3_std_3 p0 p1 p2 p3] = [Gen.C19.b2p_3_np_3 p0 p1 p2 p3, Gen.C19.b2p_3_np_2 p0 p1 p2 p3, Gen.C19.b2p_3_np_1 p0 p1 p2 p3, Gen.C19.b2p_3_np_0 p0 p1 p2 p3] := by
@@ -156,11 +156,11 @@ theorem b2pStd_3 (p0 p1 p2 p3 : K) :
 
 theorem splitL_3 (p0 p1 p2 p3 t u : K) :
     bernstein [Gen.C19.split_3_L_0 p0 p1 p2 p3 t, Gen.C19.split_3_L_1 p0 p1 p2 p3 t, Gen.C19.split_3_L_2 p0 p1 p2 p3 t, Gen.C19.split_3_L_3 p0 p1 p2 p3 t] u = bernstein [p0, p1, p2, p3] (u * t) := by
-  simp [Gen.C19.split_3_L_0, Gen.C19.split_3_L_1, Gen.C19.split_3_L_2, Gen.C19.split_3_L_3, bernstein, bernsteinAux, polyEval, List.foldl, Nat.choose] <;> ring
+  simp [Gen.C19.split_3_L_0, Gen.C19.split_3_L_1, Gen.C19.split_3_L_2, Gen.C19.split_3_L_3, bernstein, bernsteinAux, polyEval, Nat.choose] <;> ring
 
 theorem splitR_3 (p0 p1 p2 p3 t u : K) :
     bernstein [Gen.C19.split_3_R_0 p0 p1 p2 p3 t, Gen.C19.split_3_R_1 p0 p1 p2 p3 t, Gen.C19.split_3_R_2 p0 p1 p2 p3 t, Gen.C19.split_3_R_3 p0 p1 p2 p3 t] u = bernstein [p0, p1, p2, p3] (t + u * (1 - t)) := by
-  simp [Gen.C19.split_3_R_0, Gen.C19.split_3_R_1, Gen.C19.split_3_R_2, Gen.C19.split_3_R_3, bernstein, bernsteinAux, polyEval, List.foldl, Nat.choose] <;> ring
+  simp [Gen.C19.split_3_R_0, Gen.C19.split_3_R_1, Gen.C19.split_3_R_2, Gen.C19.split_3_R_3, bernstein, bernsteinAux, polyEval, Nat.choose] <;> ring
 
 theorem halveIsSplit_3 (p0 p1 p2 p3 : K) :
     [Gen.C19.halve_3_L_0 p0 p1 p2 p3, Gen.C19.halve_3_L_1 p0 p1 p2 p3, Gen.C19.halve_3_L_2 p0 p1 p2 p3, Gen.C19.halve_3_L_3 p0 p1 p2 p3] = [Gen.C19.split_3_L_0 p0 p1 p2 p3 (1/2), Gen.C19.split_3_L_1 p0 p1 p2 p3 (1/2), Gen.C19.split_3_L_2 p0 p1 p2 p3 (1/2), Gen.C19.split_3_L_3 p0 p1 p2 p3 (1/2)] ∧
@@ -169,7 +169,7 @@ theorem halveIsSplit_3 (p0 p1 p2 p3 : K) :
 
 theorem p2bCurve_3 (c0 c1 c2 c3 t : K) :
     bernstein [Gen.C19.p2b_3_0 c0 c1 c2 c3, Gen.C19.p2b_3_1 c0 c1 c2 c3, Gen.C19.p2b_3_2 c0 c1 c2 c3, Gen.C19.p2b_3_3 c0 c1 c2 c3] t = polyEval [c0, c1, c2, c3] t := by
-  simp [Gen.C19.p2b_3_0, Gen.C19.p2b_3_1, Gen.C19.p2b_3_2, Gen.C19.p2b_3_3, bernstein, bernsteinAux, polyEval, List.foldl, Nat.choose] <;> ring
+  simp [Gen.C19.p2b_3_0, Gen.C19.p2b_3_1, Gen.C19.p2b_3_2, Gen.C19.p2b_3_3, bernstein, bernsteinAux, polyEval, Nat.choose] <;> ring
 
 theorem p2bB2p_3 (p0 p1 p2 p3 : K) :
     [Gen.C19.p2b_3_0 (Gen.C19.b2p_3_np_0 p0 p1 p2 p3) (Gen.C19.b2p_3_np_1 p0 p1 p2 p3) (Gen.C19.b2p_3_np_2 p0 p1 p2 p3) (Gen.C19.b2p_3_np_3 p0 p1 p2 p3), Gen.C19.p2b_3_1 (Gen.C19.b2p_3_np_0 p0 p1 p2 p3) (Gen.C19.b2p_3_np_1 p0 p1 p2 p3) (Gen.C19.b2p_3_np_2 p0 p1 p2 p3) (Gen.C19.b2p_3_np_3 p0 p1 p2 p3), Gen.C19.p2b_3_2 (Gen.C19.b2p_3_np_0 p0 p1 p2 p3) (Gen.C19.b2p_3_np_1 p0 p1 p2 p3) (Gen.C19.b2p_3_np_2 p0 p1 p2 p3) (Gen.C19.b2p_3_np_3 p0 p1 p2 p3), Gen.C19.p2b_3_3 (Gen.C19.b2p_3_np_0 p0 p1 p2 p3) (Gen.C19.b2p_3_np_1 p0 p1 p2 p3) (Gen.C19.b2p_3_np_2 p0 p1 p2 p3) (Gen.C19.b2p_3_np_3 p0 p1 p2 p3)] = [p0, p1, p2, p3] := by
@@ -182,7 +182,7 @@ theorem b2pP2b_3 (c0 c1 c2 c3 : K) :
 /-! ## degree 4 -/
 theorem bezierPoint_4 (p0 p1 p2 p3 p4 t : K) :
     Gen.C19.bezier_point_4 p0 p1 p2 p3 p4 t = bernstein [p0, p1, p2, p3, p4] t := by
-  simp [Gen.C19.bezier_point_4, bernstein, bernsteinAux, polyEval, List.foldl, Nat.choose] <;> ring
+  simp [Gen.C19.bezier_point_4, bernstein, bernsteinAux, polyEval, Nat.choose] <;> ring
 
 theorem bezierPoint_4_zero (p0 p1 p2 p3 p4 : K) : Gen.C19.bezier_point_4 p0 p1 p2 p3 p4 0 = p0 := by
   simp [Gen.C19.bezier_point_4]
@@ -192,7 +192,7 @@ theorem bezierPoint_4_one (p0 p1 p2 p3 p4 : K) : Gen.C19.bezier_point_4 p0 p1 p2
 
 theorem b2pNp_4 (p0 p1 p2 p3 p4 t : K) :
     polyEval [Gen.C19.b2p_4_np_0 p0 p1 p2 p3 p4, Gen.C19.b2p_4_np_1 p0 p1 p2 p3 p4, Gen.C19.b2p_4_np_2 p0 p1 p2 p3 p4, Gen.C19.b2p_4_np_3 p0 p1 p2 p3 p4, Gen.C19.b2p_4_np_4 p0 p1 p2 p3 p4] t = bernstein [p0, p1, p2, p3, p4] t := by
-  simp [Gen.C19.b2p_4_np_0, Gen.C19.b2p_4_np_1, Gen.C19.b2p_4_np_2, Gen.C19.b2p_4_np_3, Gen.C19.b2p_4_np_4, bernstein, bernsteinAux, polyEval, List.foldl, Nat.choose] <;> ring
+  simp [Gen.C19.b2p_4_np_0, Gen.C19.b2p_4_np_1, Gen.C19.b2p_4_np_2, Gen.C19.b2p_4_np_3, Gen.C19.b2p_4_np_4, bernstein, bernsteinAux, polyEval, Nat.choose] <;> ring
 
 theorem b2pStd_4 (p0 p1 p2 p3 p4 : K) :
     [Gen.C19.b2p_4_std_0 p0 p1 p2 p3 p4, Gen.C19.b2p_4_std_1 p0 p1 p2 p3 p4, Gen.C19.b2p_4_std_2 p0 p1 p2 p3 p4, Gen.C19.b2p_4_std_3 p0 p1 p2 p3 p4, Gen.C19.b2p_4_std_4 p0 p1 p2 p3 p4] = [Gen.C19.b2p_4_np_4 p0 p1 p2 p3 p4, Gen.C19.b2p_4_np_3 p0 p1 p2 p3 p4, Gen.C19.b2p_4_np_2 p0 p1 p2 p3 p4, Gen.C19.b2p_4_np_1 p0 p1 p2 p3 p4, Gen.C19.b2p_4_np_0 p0 p1 p2 p3 p4] := by
@@ -200,11 +200,11 @@ theorem b2pStd_4 (p0 p1 p2 p3 p4 : K) :
 
 theorem splitL_4 (p0 p1 p2 p3 p4 t u : K) :
     bernstein [Gen.C19.split_4_L_0 p0 p1 p2 p3 p4 t, Gen.C19.split_4_L_1 p0 p1 p2 p3 p4 t, Gen.C19.split_4_L_2 p0 p1 p2 p3 p4 t, Gen.C19.split_4_L_3 p0 p1 p2 p3 p4 t, Gen.C19.split_4_L_4 p0 p1 p2 p3 p4 t] u = bernstein [p0, p1, p2, p3, p4] (u * t) := by
-  simp [Gen.C19.split_4_L_0, Gen.C19.split_4_L_1, Gen.C19.split_4_L_2, Gen.C19.split_4_L_3, Gen.C19.split_4_L_4, bernstein, bernsteinAux, polyEval, List.foldl, Nat.choose] <;> ring
+  simp [Gen.C19.split_4_L_0, Gen.C19.split_4_L_1, Gen.C19.split_4_L_2, Gen.C19.split_4_L_3, Gen.C19.split_4_L_4, bernstein, bernsteinAux, polyEval, Nat.choose] <;> ring
 
 theorem splitR_4 (p0 p1 p2 p3 p4 t u : K) :
     bernstein [Gen.C19.split_4_R_0 p0 p1 p2 p3 p4 t, Gen.C19.split_4_R_1 p0 p1 p2 p3 p4 t, Gen.C19.split_4_R_2 p0 p1 p2 p3 p4 t, Gen.C19.split_4_R_3 p0 p1 p2 p3 p4 t, Gen.C19.split_4_R_4 p0 p1 p2 p3 p4 t] u = bernstein [p0, p1, p2, p3, p4] (t + u * (1 - t)) := by
-  simp [Gen.C19.split_4_R_0, Gen.C19.split_4_R_1, Gen.C19.split_4_R_2, Gen.C19.split_4_R_3, Gen.C19.split_4_R_4, bernstein, bernsteinAux, polyEval, List.foldl, Nat.choose] <;> ring
+  simp [Gen.C19.split_4_R_0, Gen.C19.split_4_R_1, Gen.C19.split_4_R_2, Gen.C19.split_4_R_3, Gen.C19.split_4_R_4, bernstein, bernsteinAux, polyEval, Nat.choose] <;> ring
 
 theorem halveIsSplit_4 (p0 p1 p2 p3 p4 : K) :
     [Gen.C19.halve_4_L_0 p0 p1 p2 p3 p4, Gen.C19.halve_4_L_1 p0 p1 p2 p3 p4, Gen.C19.halve_4_L_2 p0 p1 p2 p3 p4, Gen.C19.halve_4_L_3 p0 p1 p2 p3 p4, Gen.C19.halve_4_L_4 p0 p1 p2 p3 p4] = [Gen.C19.split_4_L_0 p0 p1 p2 p3 p4 (1/2), Gen.C19.split_4_L_1 p0 p1 p2 p3 p4 (1/2), Gen.C19.split_4_L_2 p0 p1 p2 p3 p4 (1/2), Gen.C19.split_4_L_3 p0 p1 p2 p3 p4 (1/2), Gen.C19.split_4_L_4 p0 p1 p2 p3 p4 (1/2)] ∧
@@ -214,7 +214,7 @@ theorem halveIsSplit_4 (p0 p1 p2 p3 p4 : K) :
 /-! ## degree 5 -/
 theorem bezierPoint_5 (p0 p1 p2 p3 p4 p5 t : K) :
     Gen.C19.bezier_point_5 p0 p1 p2 p3 p4 p5 t = bernstein [p0, p1, p2, p3, p4, p5] t := by
-  simp [Gen.C19.bezier_point_5, bernstein, bernsteinAux, polyEval, List.foldl, Nat.choose] <;> ring
+  simp [Gen.C19.bezier_point_5, bernstein, bernsteinAux, polyEval, Nat.choose] <;> ring
 
 theorem bezierPoint_5_zero (p0 p1 p2 p3 p4 p5 : K) : Gen.C19.bezier_point_5 p0 p1 p2 p3 p4 p5 0 = p0 := by
   simp [Gen.C19.bezier_point_5]
@@ -224,7 +224,7 @@ theorem bezierPoint_5_one (p0 p1 p2 p3 p4 p5 : K) : Gen.C19.bezier_point_5 p0 p1
 
 theorem b2pNp_5 (p0 p1 p2 p3 p4 p5 t : K) :
     polyEval [Gen.C19.b2p_5_np_0 p0 p1 p2 p3 p4 p5, Gen.C19.b2p_5_np_1 p0 p1 p2 p3 p4 p5, Gen.C19.b2p_5_np_2 p0 p1 p2 p3 p4 p5, Gen.C19.b2p_5_np_3 p0 p1 p2 p3 p4 p5, Gen.C19.b2p_5_np_4 p0 p1 p2 p3 p4 p5, Gen.C19.b2p_5_np_5 p0 p1 p2 p3 p4 p5] t = bernstein [p0, p1, p2, p3, p4, p5] t := by
-  simp [Gen.C19.b2p_5_np_0, Gen.C19.b2p_5_np_1, Gen.C19.b2p_5_np_2, Gen.C19.b2p_5_np_3, Gen.C19.b2p_5_np_4, Gen.C19.b2p_5_np_5, bernstein, bernsteinAux, polyEval, List.foldl, Nat.choose] <;> ring
+  simp [Gen.C19.b2p_5_np_0, Gen.C19.b2p_5_np_1, Gen.C19.b2p_5_np_2, Gen.C19.b2p_5_np_3, Gen.C19.b2p_5_np_4, Gen.C19.b2p_5_np_5, bernstein, bernsteinAux, polyEval, Nat.choose] <;> ring
 
 theorem b2pStd_5 (p0 p1 p2 p3 p4 p5 : K) :
     [Gen.C19.b2p_5_std_0 p0 p1 p2 p3 p4 p5, Gen.C19.b2p_5_std_1 p0 p1 p2 p3 p4 p5, Gen.C19.b2p_5_std_2 p0 p1 p2 p3 p4 p5, Gen.C19.b2p_5_std_3 p0 p1 p2 p3 p4 p5, Gen.C19.b2p_5_std_4 p0 p1 p2 p3 p4 p5, Gen.C19.b2p_5_std_5 p0 p1 p2 p3 p4 p5] = [Gen.C19.b2p_5_np_5 p0 p1 p2 p3 p4 p5, Gen.C19.b2p_5_np_4 p0 p1 p2 p3 p4 p5, Gen.C19.b2p_5_np_3 p0 p1 p2 p3 p4 p5, Gen.C19.b2p_5_np_2 p0 p1 p2 p3 p4 p5, Gen.C19.b2p_5_np_1 p0 p1 p2 p3 p4 p5, Gen.C19.b2p_5_np_0 p0 p1 p2 p3 p4 p5] := by
@@ -232,11 +232,11 @@ theorem b2pStd_5 (p0 p1 p2 p3 p4 p5 : K) :
 
 theorem splitL_5 (p0 p1 p2 p3 p4 p5 t u : K) :
     bernstein [Gen.C19.split_5_L_0 p0 p1 p2 p3 p4 p5 t, Gen.C19.split_5_L_1 p0 p1 p2 p3 p4 p5 t, Gen.C19.split_5_L_2 p0 p1 p2 p3 p4 p5 t, Gen.C19.split_5_L_3 p0 p1 p2 p3 p4 p5 t, Gen.C19.split_5_L_4 p0 p1 p2 p3 p4 p5 t, Gen.C19.split_5_L_5 p0 p1 p2 p3 p4 p5 t] u = bernstein [p0, p1, p2, p3, p4, p5] (u * t) := by
-  simp [Gen.C19.split_5_L_0, Gen.C19.split_5_L_1, Gen.C19.split_5_L_2, Gen.C19.split_5_L_3, Gen.C19.split_5_L_4, Gen.C19.split_5_L_5, bernstein, bernsteinAux, polyEval, List.foldl, Nat.choose] <;> ring
+  simp [Gen.C19.split_5_L_0, Gen.C19.split_5_L_1, Gen.C19.split_5_L_2, Gen.C19.split_5_L_3, Gen.C19.split_5_L_4, Gen.C19.split_5_L_5, bernstein, bernsteinAux, polyEval, Nat.choose] <;> ring
 
 theorem splitR_5 (p0 p1 p2 p3 p4 p5 t u : K) :
     bernstein [Gen.C19.split_5_R_0 p0 p1 p2 p3 p4 p5 t, Gen.C19.split_5_R_1 p0 p1 p2 p3 p4 p5 t, Gen.C19.split_5_R_2 p0 p1 p2 p3 p4 p5 t, Gen.C19.split_5_R_3 p0 p1 p2 p3 p4 p5 t, Gen.C19.split_5_R_4 p0 p1 p2 p3 p4 p5 t, Gen.C19.split_5_R_5 p0 p1 p2 p3 p4 p5 t] u = bernstein [p0, p1, p2, p3, p4, p5] (t + u * (1 - t)) := by
-  simp [Gen.C19.split_5_R_0, Gen.C19.split_5_R_1, Gen.C19.split_5_R_2, Gen.C19.split_5_R_3, Gen.C19.split_5_R_4, Gen.C19.split_5_R_5, bernstein, bernsteinAux, polyEval, List.foldl, Nat.choose] <;> ring
+  simp [Gen.C19.split_5_R_0, Gen.C19.split_5_R_1, Gen.C19.split_5_R_2, Gen.C19.split_5_R_3, Gen.C19.split_5_R_4, Gen.C19.split_5_R_5, bernstein, bernsteinAux, polyEval, Nat.choose] <;> ring
 
 theorem halveIsSplit_5 (p0 p1 p2 p3 p4 p5 : K) :
     [Gen.C19.halve_5_L_0 p0 p1 p2 p3 p4 p5, Gen.C19.halve_5_L_1 p0 p1 p2 p3 p4 p5, Gen.C19.halve_5_L_2 p0 p1 p2 p3 p4 p5, Gen.C19.halve_5_L_3 p0 p1 p2 p3 p4 p5, Gen.C19.halve_5_L_4 p0 p1 p2 p3 p4 p5, Gen.C19.halve_5_L_5 p0 p1 p2 p3 p4 p5] = [Gen.C19.split_5_L_0 p0 p1 p2 p3 p4 p5 (1/2), Gen.C19.split_5_L_1 p0 p1 p2 p3 p4 p5 (1/2), Gen.C19.split_5_L_2 p0 p1 p2 p3 p4 p5 (1/2), Gen.C19.split_5_L_3 p0 p1 p2 p3 p4 p5 (1/2), Gen.C19.split_5_L_4 p0 p1 p2 p3 p4 p5 (1/2), Gen.C19.split_5_L_5 p0 p1 p2 p3 p4 p5 (1/2)] ∧
@@ -246,7 +246,7 @@ theorem halveIsSplit_5 (p0 p1 p2 p3 p4 p5 : K) :
 /-! ## degree 6 -/
 theorem bezierPoint_6 (p0 p1 p2 p3 p4 p5 p6 t : K) :
     Gen.C19.bezier_point_6 p0 p1 p2 p3 p4 p5 p6 t = bernstein [p0, p1, p2, p3, p4, p5, p6] t := by
-  simp [Gen.C19.bezier_point_6, bernstein, bernsteinAux, polyEval, List.foldl, Nat.choose] <;> ring
+  simp [Gen.C19.bezier_point_6, bernstein, bernsteinAux, polyEval, Nat.choose] <;> ring
 
 theorem bezierPoint_6_zero (p0 p1 p2 p3 p4 p5 p6 : K) : Gen.C19.bezier_point_6 p0 p1 p2 p3 p4 p5 p6 0 = p0 := by
   simp [Gen.C19.bezier_point_6]
@@ -256,7 +256,7 @@ theorem bezierPoint_6_one (p0 p1 p2 p3 p4 p5 p6 : K) : Gen.C19.bezier_point_6 p0
 
 theorem b2pNp_6 (p0 p1 p2 p3 p4 p5 p6 t : K) :
     polyEval [Gen.C19.b2p_6_np_0 p0 p1 p2 p3 p4 p5 p6, Gen.C19.b2p_6_np_1 p0 p1 p2 p3 p4 p5 p6, Gen.C19.b2p_6_np_2 p0 p1 p2 p3 p4 p5 p6, Gen.C19.b2p_6_np_3 p0 p1 p2 p3 p4 p5 p6, Gen.C19.b2p_6_np_4 p0 p1 p2 p3 p4 p5 p6, Gen.C19.b2p_6_np_5 p0 p1 p2 p3 p4 p5 p6, Gen.C19.b2p_6_np_6 p0 p1 p2 p3 p4 p5 p6] t = bernstein [p0, p1, p2, p3, p4, p5, p6] t := by
-  simp [Gen.C19.b2p_6_np_0, Gen.C19.b2p_6_np_1, Gen.C19.b2p_6_np_2, Gen.C19.b2p_6_np_3, Gen.C19.b2p_6_np_4, Gen.C19.b2p_6_np_5, Gen.C19.b2p_6_np_6, bernstein, bernsteinAux, polyEval, List.foldl, Nat.choose] <;> ring
+  simp [Gen.C19.b2p_6_np_0, Gen.C19.b2p_6_np_1, Gen.C19.b2p_6_np_2, Gen.C19.b2p_6_np_3, Gen.C19.b2p_6_np_4, Gen.C19.b2p_6_np_5, Gen.C19.b2p_6_np_6, bernstein, bernsteinAux, polyEval, Nat.choose] <;> ring
 
 theorem b2pStd_6 (p0 p1 p2 p3 p4 p5 p6 : K) :
     [Gen.C19.b2p_6_std_0 p0 p1 p2 p3 p4 p5 p6, Gen.C19.b2p_6_std_1 p0 p1 p2 p3 p4 p5 p6, Gen.C19.b2p_6_std_2 p0 p1 p2 p3 p4 p5 p6, Gen.C19.b2p_6_std_3 p0 p1 p2 p3 p4 p5 p6, Gen.C19.b2p_6_std_4 p0 p1 p2 p3 p4 p5 p6, Gen.C19.b2p_6_std_5 p0 p1 p2 p3 p4 p5 p6, Gen.C19.b2p_6_std_6 p0 p1 p2 p3 p4 p5 p6] = [Gen.C19.b2p_6_np_6 p0 p1 p2 p3 p4 p5 p6, Gen.C19.b2p_6_np_5 p0 p1 p2 p3 p4 p5 p6, Gen.C19.b2p_6_np_4 p0 p1 p2 p3 p4 p5 p6, Gen.C19.b2p_6_np_3 p0 p1 p2 p3 p4 p5 p6, Gen.C19.b2p_6_np_2 p0 p1 p2 p3 p4 p5 p6, Gen.C19.b2p_6_np_1 p0 p1 p2 p3 p4 p5 p6, Gen.C19.b2p_6_np_0 p0 p1 p2 p3 p4 p5 p6] := by
@@ -264,11 +264,11 @@ theorem b2pStd_6 (p0 p1 p2 p3 p4 p5 p6 : K) :
 
 theorem splitL_6 (p0 p1 p2 p3 p4 p5 p6 t u : K) :
     bernstein [Gen.C19.split_6_L_0 p0 p1 p2 p3 p4 p5 p6 t, Gen.C19.split_6_L_1 p0 p1 p2 p3 p4 p5 p6 t, Gen.C19.split_6_L_2 p0 p1 p2 p3 p4 p5 p6 t, Gen.C19.split_6_L_3 p0 p1 p2 p3 p4 p5 p6 t, Gen.C19.split_6_L_4 p0 p1 p2 p3 p4 p5 p6 t, Gen.C19.split_6_L_5 p0 p1 p2 p3 p4 p5 p6 t, Gen.C19.split_6_L_6 p0 p1 p2 p3 p4 p5 p6 t] u = bernstein [p0, p1, p2, p3, p4, p5, p6] (u * t) := by
-  simp [Gen.C19.split_6_L_0, Gen.C19.split_6_L_1, Gen.C19.split_6_L_2, Gen.C19.split_6_L_3, Gen.C19.split_6_L_4, Gen.C19.split_6_L_5, Gen.C19.split_6_L_6, bernstein, bernsteinAux, polyEval, List.foldl, Nat.choose] <;> ring
+  simp [Gen.C19.split_6_L_0, Gen.C19.split_6_L_1, Gen.C19.split_6_L_2, Gen.C19.split_6_L_3, Gen.C19.split_6_L_4, Gen.C19.split_6_L_5, Gen.C19.split_6_L_6, bernstein, bernsteinAux, polyEval, Nat.choose] <;> ring
 
 theorem splitR_6 (p0 p1 p2 p3 p4 p5 p6 t u : K) :
     bernstein [Gen.C19.split_6_R_0 p0 p1 p2 p3 p4 p5 p6 t, Gen.C19.split_6_R_1 p0 p1 p2 p3 p4 p5 p6 t, Gen.C19.split_6_R_2 p0 p1 p2 p3 p4 p5 p6 t, Gen.C19.split_6_R_3 p0 p1 p2 p3 p4 p5 p6 t, Gen.C19.split_6_R_4 p0 p1 p2 p3 p4 p5 p6 t, Gen.C19.split_6_R_5 p0 p1 p2 p3 p4 p5 p6 t, Gen.C19.split_6_R_6 p0 p1 p2 p3 p4 p5 p6 t] u = bernstein [p0, p1, p2, p3, p4, p5, p6] (t + u * (1 - t)) := by
-  simp [Gen.C19.split_6_R_0, Gen.C19.split_6_R_1, Gen.C19.split_6_R_2, Gen.C19.split_6_R_3, Gen.C19.split_6_R_4, Gen.C19.split_6_R_5, Gen.C19.split_6_R_6, bernstein, bernsteinAux, polyEval, List.foldl, Nat.choose] <;> ring
+  simp [Gen.C19.split_6_R_0, Gen.C19.split_6_R_1, Gen.C19.split_6_R_2, Gen.C19.split_6_R_3, Gen.C19.split_6_R_4, Gen.C19.split_6_R_5, Gen.C19.split_6_R_6, bernstein, bernsteinAux, polyEval, Nat.choose] <;> ring
 
 theorem halveIsSplit_6 (p0 p1 p2 p3 p4 p5 p6 : K) :
     [Gen.C19.halve_6_L_0 p0 p1 p2 p3 p4 p5 p6, Gen.C19.halve_6_L_1 p0 p1 p2 p3 p4 p5 p6, Gen.C19.halve_6_L_2 p0 p1 p2 p3 p4 p5 p6, Gen.C19.halve_6_L_3 p0 p1 p2 p3 p4 p5 p6, Gen.C19.halve_6_L_4 p0 p1 p2 p3 p4 p5 p6, Gen.C19.halve_6_L_5 p0 p1 p2 p3 p4 p5 p6, Gen.C19.halve_6_L_6 p0 p1 p2 p3 p4 p5 p6] = [Gen.C19.split_6_L_0 p0 p1 p2 p3 p4 p5 p6 (1/2), Gen.C19.split_6_L_1 p0 p1 p2 p3 p4 p5 p6 (1/2), Gen.C19.split_6_L_2 p0 p1 p2 p3 p4 p5 p6 (1/2), Gen.C19.split_6_L_3 p0 p1 p2 p3 p4 p5 p6 (1/2), Gen.C19.split_6_L_4 p0 p1 p2 p3 p4 p5 p6 (1/2), Gen.C19.split_6_L_5 p0 p1 p2 p3 p4 p5 p6 (1/2), Gen.C19.split_6_L_6 p0 p1 p2 p3 p4 p5 p6 (1/2)] ∧
@@ -278,7 +278,7 @@ theorem halveIsSplit_6 (p0 p1 p2 p3 p4 p5 p6 : K) :
 /-! ## degree 7 -/
 theorem bezierPoint_7 (p0 p1 p2 p3 p4 p5 p6 p7 t : K) :
     Gen.C19.bezier_point_7 p0 p1 p2 p3 p4 p5 p6 p7 t = bernstein [p0, p1, p2, p3, p4, p5, p6, p7] t := by
-  simp [Gen.C19.bezier_point_7, bernstein, bernsteinAux, polyEval, List.foldl, Nat.choose] <;> ring
+  simp [Gen.C19.bezier_point_7, bernstein, bernsteinAux, polyEval, Nat.choose] <;> ring
 
 theorem bezierPoint_7_zero (p0 p1 p2 p3 p4 p5 p6 p7 : K) : Gen.C19.bezier_point_7 p0 p1 p2 p3 p4 p5 p6 p7 0 = p0 := by
   simp [Gen.C19.bezier_point_7]
@@ -288,7 +288,7 @@ theorem bezierPoint_7_one (p0 p1 p2 p3 p4 p5 p6 p7 : K) : Gen.C19.bezier_point_7
 
 theorem b2pNp_7 (p0 p1 p2 p3 p4 p5 p6 p7 t : K) :
     polyEval [Gen.C19.b2p_7_np_0 p0 p1 p2 p3 p4 p5 p6 p7, Gen.C19.b2p_7_np_1 p0 p1 p2 p3 p4 p5 p6 p7, Gen.C19.b2p_7_np_2 p0 p1 p2 p3 p4 p5 p6 p7, Gen.C19.b2p_7_np_3 p0 p1 p2 p3 p4 p5 p6 p7, Gen.C19.b2p_7_np_4 p0 p1 p2 p3 p4 p5 p6 p7, Gen.C19.b2p_7_np_5 p0 p1 p2 p3 p4 p5 p6 p7, Gen.C19.b2p_7_np_6 p0 p1 p2 p3 p4 p5 p6 p7, Gen.C19.b2p_7_np_7 p0 p1 p2 p3 p4 p5 p6 p7] t = bernstein [p0, p1, p2, p3, p4, p5, p6, p7] t := by
-  simp [Gen.C19.b2p_7_np_0, Gen.C19.b2p_7_np_1, Gen.C19.b2p_7_np_2, Gen.C19.b2p_7_np_3, Gen.C19.b2p_7_np_4, Gen.C19.b2p_7_np_5, Gen.C19.b2p_7_np_6, Gen.C19.b2p_7_np_7, bernstein, bernsteinAux, polyEval, List.foldl, Nat.choose] <;> ring
+  simp [Gen.C19.b2p_7_np_0, Gen.C19.b2p_7_np_1, Gen.C19.b2p_7_np_2, Gen.C19.b2p_7_np_3, Gen.C19.b2p_7_np_4, Gen.C19.b2p_7_np_5, Gen.C19.b2p_7_np_6, Gen.C19.b2p_7_np_7, bernstein, bernsteinAux, polyEval, Nat.choose] <;> ring
 
 theorem b2pStd_7 (p0 p1 p2 p3 p4 p5 p6 p7 : K) :
     [Gen.C19.b2p_7_std_0 p0 p1 p2 p3 p4 p5 p6 p7, Gen.C19.b2p_7_std_1 p0 p1 p2 p3 p4 p5 p6 p7, Gen.C19.b2p_7_std_2 p0 p1 p2 p3 p4 p5 p6 p7, Gen.C19.b2p_7_std_3 p0 p1 p2 p3 p4 p5 p6 p7, Gen.C19.b2p_7_std_4 p0 p1 p2 p3 p4 p5 p6 p7, Gen.C19.b2p_7_std_5 p0 p1 p2 p3 p4 p5 p6 p7, Gen.C19.b2p_7_std_6 p0 p1 p2 p3 p4 p5 p6 p7, Gen.C19.b2p_7_std_7 p0 p1 p2 p3 p4 p5 p6 p7] = [Gen.C19.b2p_7_np_7 p0 p1 p2 p3 p4 p5 p6 p7, Gen.C19.b2p_7_np_6 p0 p1 p2 p3 p4 p5 p6 p7, Gen.C19.b2p_7_np_5 p0 p1 p2 p3 p4 p5 p6 p7, Gen.C19.b2p_7_np_4 p0 p1 p2 p3 p4 p5 p6 p7, Gen.C19.b2p_7_np_3 p0 p1 p2 p3 p4 p5 p6 p7, Gen.C19.b2p_7_np_2 p0 p1 p2 p3 p4 p5 p6 p7, Gen.C19.b2p_7_np_1 p0 p1 p2 p3 p4 p5 p6 p7, Gen.C19.b2p_7_np_0 p0 p1 p2 p3 p4 p5 p6 p7] := by
@@ -296,11 +296,11 @@ theorem b2pStd_7 (p0 p1 p2 p3 p4 p5 p6 p7 : K) :
 
 theorem splitL_7 (p0 p1 p2 p3 p4 p5 p6 p7 t u : K) :
     bernstein [Gen.C19.split_7_L_0 p0 p1 p2 p3 p4 p5 p6 p7 t, Gen.C19.split_7_L_1 p0 p1 p2 p3 p4 p5 p6 p7 t, Gen.C19.split_7_L_2 p0 p1 p2 p3 p4 p5 p6 p7 t, Gen.C19.split_7_L_3 p0 p1 p2 p3 p4 p5 p6 p7 t, Gen.C19.split_7_L_4 p0 p1 p2 p3 p4 p5 p6 p7 t, Gen.C19.split_7_L_5 p0 p1 p2 p3 p4 p5 p6 p7 t, Gen.C19.split_7_L_6 p0 p1 p2 p3 p4 p5 p6 p7 t, Gen.C19.split_7_L_7 p0 p1 p2 p3 p4 p5 p6 p7 t] u = bernstein [p0, p1, p2, p3, p4, p5, p6, p7] (u * t) := by
-  simp [Gen.C19.split_7_L_0, Gen.C19.split_7_L_1, Gen.C19.split_7_L_2, Gen.C19.split_7_L_3, Gen.C19.split_7_L_4, Gen.C19.split_7_L_5, Gen.C19.split_7_L_6, Gen.C19.split_7_L_7, bernstein, bernsteinAux, polyEval, List.foldl, Nat.choose] <;> ring
+  simp [Gen.C19.split_7_L_0, Gen.C19.split_7_L_1, Gen.C19.split_7_L_2, Gen.C19.split_7_L_3, Gen.C19.split_7_L_4, Gen.C19.split_7_L_5, Gen.C19.split_7_L_6, Gen.C19.split_7_L_7, bernstein, bernsteinAux, polyEval, Nat.choose] <;> ring
 
 theorem splitR_7 (p0 p1 p2 p3 p4 p5 p6 p7 t u : K) :
     bernstein [Gen.C19.split_7_R_0 p0 p1 p2 p3 p4 p5 p6 p7 t, Gen.C19.split_7_R_1 p0 p1 p2 p3 p4 p5 p6 p7 t, Gen.C19.split_7_R_2 p0 p1 p2 p3 p4 p5 p6 p7 t, Gen.C19.split_7_R_3 p0 p1 p2 p3 p4 p5 p6 p7 t, Gen.C19.split_7_R_4 p0 p1 p2 p3 p4 p5 p6 p7 t, Gen.C19.split_7_R_5 p0 p1 p2 p3 p4 p5 p6 p7 t, Gen.C19.split_7_R_6 p0 p1 p2 p3 p4 p5 p6 p7 t, Gen.C19.split_7_R_7 p0 p1 p2 p3 p4 p5 p6 p7 t] u = bernstein [p0, p1, p2, p3, p4, p5, p6, p7] (t + u * (1 - t)) := by
-  simp [Gen.C19.split_7_R_0, Gen.C19.split_7_R_1, Gen.C19.split_7_R_2, Gen.C19.split_7_R_3, Gen.C19.split_7_R_4, Gen.C19.split_7_R_5, Gen.C19.split_7_R_6, Gen.C19.split_7_R_7, bernstein, bernsteinAux, polyEval, List.foldl, Nat.choose] <;> ring
+  simp [Gen.C19.split_7_R_0, Gen.C19.split_7_R_1, Gen.C19.split_7_R_2, Gen.C19.split_7_R_3, Gen.C19.split_7_R_4, Gen.C19.split_7_R_5, Gen.C19.split_7_R_6, Gen.C19.split_7_R_7, bernstein, bernsteinAux, polyEval, Nat.choose] <;> ring
 
 theorem halveIsSplit_7 (p0 p1 p2 p3 p4 p5 p6 p7 : K) :
     [Gen.C19.halve_7_L_0 p0 p1 p2 p3 p4 p5 p6 p7, Gen.C19.halve_7_L_1 p0 p1 p2 p3 p4 p5 p6 p7, Gen.C19.halve_7_L_2 p0 p1 p2 p3 p4 p5 p6 p7, Gen.C19.halve_7_L_3 p0 p1 p2 p3 p4 p5 p6 p7, Gen.C19.halve_7_L_4 p0 p1 p2 p3 p4 p5 p6 p7, Gen.C19.halve_7_L_5 p0 p1 p2 p3 p4 p5 p6 p7, Gen.C19.halve_7_L_6 p0 p1 p2 p3 p4 p5 p6 p7, Gen.C19.halve_7_L_7 p0 p1 p2 p3 p4 p5 p6 p7] = [Gen.C19.split_7_L_0 p0 p1 p2 p3 p4 p5 p6 p7 (1/2), Gen.C19.split_7_L_1 p0 p1 p2 p3 p4 p5 p6 p7 (1/2), Gen.C19.split_7_L_2 p0 p1 p2 p3 p4 p5 p6 p7 (1/2), Gen.C19.split_7_L_3 p0 p1 p2 p3 p4 p5 p6 p7 (1/2), Gen.C19.split_7_L_4 p0 p1 p2 p3 p4 p5 p6 p7 (1/2), Gen.C19.split_7_L_5 p0 p1 p2 p3 p4 p5 p6 p7 (1/2), Gen.C19.split_7_L_6 p0 p1 p2 p3 p4 p5 p6 p7 (1/2), Gen.C19.split_7_L_7 p0 p1 p2 p3 p4 p5 p6 p7 (1/2)] ∧
@@ -310,7 +310,7 @@ theorem halveIsSplit_7 (p0 p1 p2 p3 p4 p5 p6 p7 : K) :
 /-! ## degree 8 -/
 theorem bezierPoint_8 (p0 p1 p2 p3 p4 p5 p6 p7 p8 t : K) :
     Gen.C19.bezier_point_8 p0 p1 p2 p3 p4 p5 p6 p7 p8 t = bernstein [p0, p1, p2, p3, p4, p5, p6, p7, p8] t := by
-  simp [Gen.C19.bezier_point_8, bernstein, bernsteinAux, polyEval, List.foldl, Nat.choose] <;> ring
+  simp [Gen.C19.bezier_point_8, bernstein, bernsteinAux, polyEval, Nat.choose] <;> ring
 
 theorem bezierPoint_8_zero (p0 p1 p2 p3 p4 p5 p6 p7 p8 : K) : Gen.C19.bezier_point_8 p0 p1 p2 p3 p4 p5 p6 p7 p8 0 = p0 := by
   simp [Gen.C19.bezier_point_8]
@@ -320,7 +320,7 @@ theorem bezierPoint_8_one (p0 p1 p2 p3 p4 p5 p6 p7 p8 : K) : Gen.C19.bezier_poin
 
 theorem b2pNp_8 (p0 p1 p2 p3 p4 p5 p6 p7 p8 t : K) :
     polyEval [Gen.C19.b2p_8_np_0 p0 p1 p2 p3 p4 p5 p6 p7 p8, Gen.C19.b2p_8_np_1 p0 p1 p2 p3 p4 p5 p6 p7 p8, Gen.C19.b2p_8_np_2 p0 p1 p2 p3 p4 p5 p6 p7 p8, Gen.C19.b2p_8_np_3 p0 p1 p2 p3 p4 p5 p6 p7 p8, Gen.C19.b2p_8_np_4 p0 p1 p2 p3 p4 p5 p6 p7 p8, Gen.C19.b2p_8_np_5 p0 p1 p2 p3 p4 p5 p6 p7 p8, Gen.C19.b2p_8_np_6 p0 p1 p2 p3 p4 p5 p6 p7 p8, Gen.C19.b2p_8_np_7 p0 p1 p2 p3 p4 p5 p6 p7 p8, Gen.C19.b2p_8_np_8 p0 p1 p2 p3 p4 p5 p6 p7 p8] t = bernstein [p0, p1, p2, p3, p4, p5, p6, p7, p8] t := by
-  simp [Gen.C19.b2p_8_np_0, Gen.C19.b2p_8_np_1, Gen.C19.b2p_8_np_2, Gen.C19.b2p_8_np_3, Gen.C19.b2p_8_np_4, Gen.C19.b2p_8_np_5, Gen.C19.b2p_8_np_6, Gen.C19.b2p_8_np_7, Gen.C19.b2p_8_np_8, bernstein, bernsteinAux, polyEval, List.foldl, Nat.choose] <;> ring
+  simp [Gen.C19.b2p_8_np_0, Gen.C19.b2p_8_np_1, Gen.C19.b2p_8_np_2, Gen.C19.b2p_8_np_3, Gen.C19.b2p_8_np_4, Gen.C19.b2p_8_np_5, Gen.C19.b2p_8_np_6, Gen.C19.b2p_8_np_7, Gen.C19.b2p_8_np_8, bernstein, bernsteinAux, polyEval, Nat.choose] <;> ring
 
 theorem b2pStd_8 (p0 p1 p2 p3 p4 p5 p6 p7 p8 : K) :
     [Gen.C19.b2p_8_std_0 p0 p1 p2 p3 p4 p5 p6 p7 p8, Gen.C19.b2p_8_std_1 p0 p1 p2 p3 p4 p5 p6 p7 p8, Gen.C19.b2p_8_std_2 p0 p1 p2 p3 p4 p5 p6 p7 p8, Gen.C19.b2p_8_std_3 p0 p1 p2 p3 p4 p5 p6 p7 p8, Gen.C19.b2p_8_std_4 p0 p1 p2 p3 p4 p5 p6 p7 p8, Gen.C19.b2p_8_std_5 p0 p1 p2 p3 p4 p5 p6 p7 p8, Gen.C19.b2p_8_std_6 p0 p1 p2 p3 p4 p5 p6 p7 p8, Gen.C19.b2p_8_std_7 p0 p1 p2 p3 p4 p5 p6 p7 p8, Gen.C19.b2p_8_std_8 p0 p1 p2 p3 p4 p5 p6 p7 p8] = [Gen.C19.b2p_8_np_8 p0 p1 p2 p3 p4 p5 p6 p7 p8, Gen.C19.b2p_8_np_7 p0 p1 p2 p3 p4 p5 p6 p7 p8, Gen.C19.b2p_8_np_6 p0 p1 p2 p3 p4 p5 p6 p7 p8, Gen.C19.b2p_8_np_5 p0 p1 p2 p3 p4 p5 p6 p7 p8, Gen.C19.b2p_8_np_4 p0 p1 p2 p3 p4 p5 p6 p7 p8, Gen.C19.b2p_8_np_3 p0 p1 p2 p3 p4 p5 p6 p7 p8, Gen.C19.b2p_8_np_2 p0 p1 p2 p3 p4 p5 p6 p7 p8, Gen.C19.b2p_8_np_1 p0 p1 p2 p3 p4 p5 p6 p7 p8, Gen.C19.b2p_8_np_0 p0 p1 p2 p3 p4 p5 p6 p7 p8] := by
@@ -328,11 +328,11 @@ theorem b2pStd_8 (p0 p1 p2 p3 p4 p5 p6 p7 p8 : K) :
 
 theorem splitL_8 (p0 p1 p2 p3 p4 p5 p6 p7 p8 t u : K) :
     bernstein [Gen.C19.split_8_L_0 p0 p1 p2 p3 p4 p5 p6 p7 p8 t, Gen.C19.split_8_L_1 p0 p1 p2 p3 p4 p5 p6 p7 p8 t, Gen.C19.split_8_L_2 p0 p1 p2 p3 p4 p5 p6 p7 p8 t, Gen.C19.split_8_L_3 p0 p1 p2 p3 p4 p5 p6 p7 p8 t, Gen.C19.split_8_L_4 p0 p1 p2 p3 p4 p5 p6 p7 p8 t, Gen.C19.split_8_L_5 p0 p1 p2 p3 p4 p5 p6 p7 p8 t, Gen.C19.split_8_L_6 p0 p1 p2 p3 p4 p5 p6 p7 p8 t, Gen.C19.split_8_L_7 p0 p1 p2 p3 p4 p5 p6 p7 p8 t, Gen.C19.split_8_L_8 p0 p1 p2 p3 p4 p5 p6 p7 p8 t] u = bernstein [p0, p1, p2, p3, p4, p5, p6, p7, p8] (u * t) := by
-  simp [Gen.C19.split_8_L_0, Gen.C19.split_8_L_1, Gen.C19.split_8_L_2, Gen.C19.split_8_L_3, Gen.C19.split_8_L_4, Gen.C19.split_8_L_5, Gen.C19.split_8_L_6, Gen.C19.split_8_L_7, Gen.C19.split_8_L_8, bernstein, bernsteinAux, polyEval, List.foldl, Nat.choose] <;> ring
+  simp [Gen.C19.split_8_L_0, Gen.C19.split_8_L_1, Gen.C19.split_8_L_2, Gen.C19.split_8_L_3, Gen.C19.split_8_L_4, Gen.C19.split_8_L_5, Gen.C19.split_8_L_6, Gen.C19.split_8_L_7, Gen.C19.split_8_L_8, bernstein, bernsteinAux, polyEval, Nat.choose] <;> ring
 
 theorem splitR_8 (p0 p1 p2 p3 p4 p5 p6 p7 p8 t u : K) :
     bernstein [Gen.C19.split_8_R_0 p0 p1 p2 p3 p4 p5 p6 p7 p8 t, Gen.C19.split_8_R_1 p0 p1 p2 p3 p4 p5 p6 p7 p8 t, Gen.C19.split_8_R_2 p0 p1 p2 p3 p4 p5 p6 p7 p8 t, Gen.C19.split_8_R_3 p0 p1 p2 p3 p4 p5 p6 p7 p8 t, Gen.C19.split_8_R_4 p0 p1 p2 p3 p4 p5 p6 p7 p8 t, Gen.C19.split_8_R_5 p0 p1 p2 p3 p4 p5 p6 p7 p8 t, Gen.C19.split_8_R_6 p0 p1 p2 p3 p4 p5 p6 p7 p8 t, Gen.C19.split_8_R_7 p0 p1 p2 p3 p4 p5 p6 p7 p8 t, Gen.C19.split_8_R_8 p0 p1 p2 p3 p4 p5 p6 p7 p8 t] u = bernstein [p0, p1, p2, p3, p4, p5, p6, p7, p8] (t + u * (1 - t)) := by
-  simp [Gen.C19.split_8_R_0, Gen.C19.split_8_R_1, Gen.C19.split_8_R_2, Gen.C19.split_8_R_3, Gen.C19.split_8_R_4, Gen.C19.split_8_R_5, Gen.C19.split_8_R_6, Gen.C19.split_8_R_7, Gen.C19.split_8_R_8, bernstein, bernsteinAux, polyEval, List.foldl, Nat.choose] <;> ring
+  simp [Gen.C19.split_8_R_0, Gen.C19.split_8_R_1, Gen.C19.split_8_R_2, Gen.C19.split_8_R_3, Gen.C19.split_8_R_4, Gen.C19.split_8_R_5, Gen.C19.split_8_R_6, Gen.C19.split_8_R_7, Gen.C19.split_8_R_8, bernstein, bernsteinAux, polyEval, Nat.choose] <;> ring
 
 theorem halveIsSplit_8 (p0 p1 p2 p3 p4 p5 p6 p7 p8 : K) :
     [Gen.C19.halve_8_L_0 p0 p1 p2 p3 p4 p5 p6 p7 p8, Gen.C19.halve_8_L_1 p0 p1 p2 p3 p4 p5 p6 p7 p8, Gen.C19.halve_8_L_2 p0 p1 p2 p3 p4 p5 p6 p7 p8, Gen.C19.halve_8_L_3 p0 p1 p2 p3 p4 p5 p6 p7 p8, Gen.C19.halve_8_L_4 p0 p1 p2 p3 p4 p5 p6 p7 p8, Gen.C19.halve_8_L_5 p0 p1 p2 p3 p4 p5 p6 p7 p8, Gen.C19.halve_8_L_6 p0 p1 p2 p3 p4 p5 p6 p7 p8, Gen.C19.halve_8_L_7 p0 p1 p2 p3 p4 p5 p6 p7 p8, Gen.C19.halve_8_L_8 p0 p1 p2 p3 p4 p5 p6 p7 p8] = [Gen.C19.split_8_L_0 p0 p1 p2 p3 p4 p5 p6 p7 p8 (1/2), Gen.C19.split_8_L_1 p0 p1 p2 p3 p4 p5 p6 p7 p8 (1/2), Gen.C19.split_8_L_2 p0 p1 p2 p3 p4 p5 p6 p7 p8 (1/2), Gen.C19.split_8_L_3 p0 p1 p2 p3 p4 p5 p6 p7 p8 (1/2), Gen.C19.split_8_L_4 p0 p1 p2 p3 p4 p5 p6 p7 p8 (1/2), Gen.C19.split_8_L_5 p0 p1 p2 p3 p4 p5 p6 p7 p8 (1/2), Gen.C19.split_8_L_6 p0 p1 p2 p3 p4 p5 p6 p7 p8 (1/2), Gen.C19.split_8_L_7 p0 p1 p2 p3 p4 p5 p6 p7 p8 (1/2), Gen.C19.split_8_L_8 p0 p1 p2 p3 p4 p5 p6 p7 p8 (1/2)] ∧
